@@ -13,6 +13,9 @@
 //!        (sum of the waits before it), otherwise the scenario is run again (3 attempts), then
 //!        reported as (L (N 93) (N overshoot-ms)) = could not be executed under the timing constraints
 //!   cfg `allhdr`    = report every response header (sorted by name; `last-modified`, `date` by presence)
+//!   op (L (N 1) target (B designation)) = Collection::clear_page(designation, target) — "" / "default" name the
+//!        collection's default host (cfg `default_host`), anything else is looked up by name;
+//!   op (L (N 2) (L [name])) = Collection::clear_response_caches(filter)   (component `pipex.rund`, Model/CacheClear.v)
 //! result per request: (L status headers body decode_ok identity log (N stream))
 //!   body / identity: a leading run of n >= 1 zero bytes is written "PAD<n>:".
 //! Component `cc.parse`: kvarn_utils::parse::CacheControl called directly.
@@ -220,12 +223,27 @@ async fn run_ops(b: &Built, ops: &[X], slack: Option<u64>, allhdr: bool) -> Opti
                 ]));
             }
             1 => {
+                // (L (N 1) target) clears by the host's own name; (L (N 1) target (B designation)) by the name given
+                // ("" / "default" = the collection's default host, any other text = get_host)
                 let uri = Uri::try_from(l[1].as_b()?).ok()?;
-                let (found, cleared) = b.hosts.clear_page(&b.host_name, &uri);
+                let designation = match l.get(2) {
+                    Some(d) => String::from_utf8(d.as_b()?.to_vec()).ok()?,
+                    None => b.host_name.clone(),
+                };
+                let (found, cleared) = b.hosts.clear_page(&designation, &uri);
                 out.push(X::L(vec![X::bool(found), X::bool(cleared)]));
             }
             2 => {
-                b.hosts.clear_response_caches(None).await;
+                // (L (N 2)) = clear_response_caches(None); (L (N 2) (L)) the same; (L (N 2) (L (B name))) = Some(name)
+                let filter = match l.get(1) {
+                    Some(f) => match f.as_l()? {
+                        [] => None,
+                        [n] => Some(String::from_utf8(n.as_b()?.to_vec()).ok()?),
+                        _ => return None,
+                    },
+                    None => None,
+                };
+                b.hosts.clear_response_caches(filter.as_deref()).await;
                 out.push(X::L(vec![]));
             }
             3 => {
@@ -434,7 +452,9 @@ fn run_pair(x: &X) -> X {
 
 pub fn dispatch(comp: &str, x: &X) -> Option<X> {
     Some(match comp {
-        "pipex.run" => run_scenario(x),
+        // pipex.rund: the same harness; the model side (Model/CacheClear.v) also reads the cfg keys `host` / `default_host`
+        // and the designated forms of the clear operations
+        "pipex.run" | "pipex.rund" => run_scenario(x),
         "pipex.pair" => run_pair(x),
         "cc.parse" => cc_parse(x),
         _ => return None,
